@@ -30,19 +30,21 @@
 (*        order, truncation/deletion marks) => every instant is served by the same    *)
 (*        group.  (Dropping the Precreate steps altogether is NOT equivalent once a   *)
 (*        later Truncate / altered duration falls between pre-creation and the first  *)
-(*        write, exactly as for an early write: X04a_Strict is kept as a negative     *)
-(*        control.)  X04a_Successor: the pre-created group serves the first instant   *)
-(*        after the newest group (no unserved instant in between).                    *)
+(*        write, exactly as for an early write: not claimed.)                         *)
+(*        X04a_Successor: the pre-created group serves the first instant after the    *)
+(*        newest group (no unserved instant in between).  Both fail for the code as   *)
+(*        found (FixSucc = FALSE: successor instant end+1ns) when the newest group    *)
+(*        ends 1ns before a whole multiple of the duration - reachable through Prune. *)
 (*  X04b  never overlaps a live group's serving range (X04b_NoOverlap); never creates *)
 (*        when the newest group is deleted or ends at/after the cutoff or at/before   *)
 (*        now (X04b_OnlySuccessorOfLiveNewest); never resurrects (X04b_NoResurrect);  *)
 (*        idempotent: repeating the call with the same arguments creates nothing      *)
 (*        unless the new newest group still ends inside the window, and k calls       *)
-(*        create at most k groups: one per call (X04b_OnePerCall); a call is a no-op  *)
+(*        create at most k groups (one per call, same invariant); a call is a no-op   *)
 (*        once the newest group ends at/after the cutoff (X04b_Fixpoint).             *)
 (*  X04c  the successor is created iff  now < end(newest) < cutoff  (both strict;     *)
 (*        end == cutoff: no; end == cutoff - 1ns: yes; end == now: no;                *)
-(*        end == now + 1ns: yes) and the instant end(newest)+1ns is not served yet.   *)
+(*        end == now + 1ns: yes) and the successor instant is not served yet.         *)
 (*  The named operators below are checked as invariants over the step record `last`.  *)
 EXTENDS Integers, Sequences, FiniteSets, TLC
 
@@ -54,6 +56,7 @@ CONSTANTS
   Durs,       \* shard group durations (ticks, multiples of 4)
   D0,         \* initial duration
   MaxG,       \* bound: groups per history
+  WithPrune,  \* TRUE: histories contain Prune steps
   FixSucc     \* TRUE: the successor is created for the instant end(newest) (repaired code);
               \* FALSE: for end(newest)+1ns (code as found)
 
@@ -124,6 +127,8 @@ Precreate(adv) == Step("Precreate", Pre(gs, now, now + adv, d, nid), PreTwin(tw,
 Truncate(t) == Step("Truncate", Trunc(gs, t), Trunc(tw, t), now, 0) /\ UNCHANGED <<d, now>>
 Alter(dd)   == dd # d /\ d' = dd /\ Step("Alter", gs, tw, now, 0) /\ UNCHANGED now
 Delete(id)  == Step("Delete", Del(gs, id), Del(tw, id), now, 0) /\ UNCHANGED <<d, now>>
+\* "two weeks pass, then PruneShardGroups": every deleted group leaves the slice
+Prune       == WithPrune /\ Step("Prune", SelectSeq(gs, Live), SelectSeq(tw, Live), now, 0) /\ UNCHANGED <<d, now>>
 Tick(n)     == n > now /\ now' = n /\ Step("Tick", gs, tw, n, 0) /\ UNCHANGED d
 
 Init == gs = <<>> /\ tw = <<>> /\ d = D0 /\ now \in {SetMin(NowTimes)} /\ nid = 1 /\ last = NoStep
@@ -135,6 +140,7 @@ Next ==
   \/ \E dd \in Durs : Alter(dd)
   \/ \E id \in 1..(nid - 1) : Delete(id)
   \/ \E n \in NowTimes : Tick(n)
+  \/ Prune
 
 Spec == Init /\ [][Next]_vars
 Bounded == nid <= MaxG + 1
@@ -151,8 +157,6 @@ NewGroup == LET ids == {last.before[i].id : i \in 1..Len(last.before)} IN
 X04a_Successor ==
   (last.a = "Precreate" /\ last.created) =>
      LET e == last.before[Len(last.before)].e IN Serves(gs[NewGroup], e)
-\* negative control (violated on purpose): with and without pre-creation every instant has the same range
-\* (tw would have to skip the Precreate steps; kept in PrecreateStrict.cfg via StrictTwin)
 
 \* X04b
 X04b_NoOverlap ==
@@ -160,7 +164,7 @@ X04b_NoOverlap ==
      ~(SetMax({gs[i].s, gs[j].s}) < SetMin({EffEnd(gs[i]), EffEnd(gs[j])}))
 X04b_NoResurrect ==
   \A i \in 1..Len(last.before) : last.before[i].del =>
-     \E j \in 1..Len(gs) : gs[j].id = last.before[i].id /\ gs[j].del
+     \A j \in 1..Len(gs) : gs[j].id = last.before[i].id => gs[j].del
 X04b_OnlySuccessorOfLiveNewest ==
   (last.a = "Precreate" /\ last.created) =>
      LET b == last.before IN
